@@ -433,7 +433,14 @@ def run_check(pid, mod, tier, seed, replay):
     rc = 0
     vio_lines = []
     if res.spec_failures:
-        st, c, a, s = res.spec_failures[0]
+        st, c, a, s = min(res.spec_failures, key=lambda d: len(d[1]))
+        stream = [x for x in P['streams'] if x.name == st]
+        if stream and ' ; ' in c and stream[0].spec_mode and s.startswith('spec '):
+            try:
+                c, a, s2 = shrink_history(pid, stream[0], c, against='spec')
+                s = 'spec ' + s2
+            except Exception:
+                pass
         path = write_replay(pid, seed, 'spec', ['# implementation output violates the specification',
                                                  'case %s %s' % (st, c), 'impl %s' % a, 'spec %s' % s])
         vio_lines.append('VIOLATION property=%s replay=%s' % (pid, path)); rc = 1
@@ -470,16 +477,65 @@ def describe_finding(k):
     return '%s %s' % (k.get('id', '?'), ' '.join(prose))
 
 def shrink_first(pid, mod, P, disagreements):
-    st, c, a, m = disagreements[0]
-    if hasattr(mod, 'shrink'):
+    st, c, a, m = min(disagreements, key=lambda d: len(d[1]))
+    stream = [x for x in P['streams'] if x.name == st]
+    if stream and ' ; ' in c:
         try:
-            r = mod.shrink(st, c, a, m)
-            if r:
-                return r
+            c2, a2, m2 = shrink_history(pid, stream[0], c, against='model')
+            return st, c2, a2, m2
         except Exception:
             pass
-    # prefer the shortest disagreeing case of the run
-    return min(disagreements, key=lambda d: len(d[1]))
+    return st, c, a, m
+
+def _fails(pid, stream, case, against):
+    impl, err = exec_stream(pid, stream, [case])
+    if err or not impl:
+        return None
+    a = stream.canon(impl[0])
+    if 'PANIC' in a or a.startswith('CRASH') or a == 'TIMEOUT':
+        return None          # shrinking must not leave the space of valid programs
+    mode = stream.mode if against == 'model' else stream.spec_mode
+    if mode is None:
+        return None
+    ref, err = driver(pid, mode, [case])
+    if err:
+        return None
+    r = stream.canon(ref[0])
+    if r in ('bad-op', 'bad-case'):
+        return None
+    ok = (stream.spec_match(r, a) if (against == 'spec' and getattr(stream, 'spec_match', None)) else r == a)
+    return None if ok else (a, r)
+
+def shrink_history(pid, stream, case, against='model', budget=150):
+    """delta debugging on the op list (ops separated by ' ; '); keeps the first token if it is a header"""
+    parts = case.split(' ; ')
+    head = []
+    if parts and '=' in parts[0] and ' ' not in parts[0]:
+        head = [parts[0]]; parts = parts[1:]
+    best = _fails(pid, stream, case, against)
+    if best is None:
+        return case, '?', '?'
+    n = 2
+    while len(parts) >= 2 and budget > 0:
+        chunk = max(1, len(parts) // n)
+        removed = False
+        i = 0
+        while i < len(parts) and budget > 0:
+            keep = getattr(stream, 'shrink_keep', None)
+            cand = parts[:i] + [o for o in parts[i:i + chunk] if keep and keep(o)] + parts[i + chunk:]
+            if len(cand) == len(parts):
+                i += chunk; continue
+            budget -= 1
+            r = _fails(pid, stream, ' ; '.join(head + cand), against) if cand else None
+            if r is not None:
+                parts = cand; best = r; removed = True
+            else:
+                i += chunk
+        if not removed:
+            if chunk == 1:
+                break
+            n = min(len(parts), n * 2)
+    return ' ; '.join(head + parts), best[0], best[1]
 
 def finish(pid, tier, seed, t0, P, thms, res, broken, known_printed, nvio):
     os.makedirs(os.path.join(VERIF, 'evidence'), exist_ok=True)
